@@ -65,6 +65,9 @@ THEOREMS = [
     "JanetModel.Props.C01.collect_keeps_symcache_tied",
     "JanetModel.Props.C01.intern_same_after_collect",
     "JanetModel.Props.C01.symcache_no_dangling_after_collect",
+    # session 4: the conditional mark of parsermark over the regenerated table of writes to ->error / ->flag
+    "JanetModel.Props.C01.parser_sites_keep_inv",
+    "JanetModel.Props.C01.parser_error_marked_iff_heap",
 ]
 H = os.path.join(VERIF, "harness/C01")
 SOURCES = [os.path.join(H, x) for x in ("gch.c", "w_ev.c", "w_net.c", "w_os.c", "w_filewatch.c", "w_ffi.c", "w_symcache.c")]
@@ -402,8 +405,9 @@ def _run(ctx, quick, broken, exes, driver, tmp, gen_info, only_replay):
         g = "gen:%04d" % i
         groups[g] = dict(prog=p, kind="gen", src=src, observes=False, need=[], opt=[])
         if small:
-            plan = [("asan", "never"), ("asan", "always"), ("asan_debugstack", "always"), ("asan_debugstack", "p4")]
-            gs = "p2"
+            # every-safepoint runs: asan_debugstack (ASan + stack relocation at every frame push) and, in the thorough tier, plain asan too
+            plan = [("asan", "never"), ("asan", "p3" if quick else "always"), ("asan_debugstack", "always"), ("asan_debugstack", "p4")]
+            gs = "p3" if quick else "p2"
         else:
             plan = [("asan", "never"), ("asan", "p16"), ("asan_debugstack", "p16"), ("asan_debugstack", "p256")]
             gs = "p64"
@@ -439,6 +443,11 @@ def _run(ctx, quick, broken, exes, driver, tmp, gen_info, only_replay):
             results[futs[f]] = f.result()
     slow = sorted(((getattr(j, "secs", 0), j.key()) for _, j in jobs), reverse=True)[:8]
     ctx.say("executions done; slowest: " + ", ".join("%s %.0fs" % (k, t) for t, k in slow))
+    by = {}
+    for g, j in jobs:
+        k = "%s/%s/%s%s" % (g.split(":")[0], j.variant, re.sub(r"\d+", "N", j.sched), "+graph" if j.graph else "")
+        by[k] = by.get(k, 0) + getattr(j, "secs", 0)
+    ctx.say("job seconds by class: " + ", ".join("%s %.0f" % kv for kv in sorted(by.items(), key=lambda kv: -kv[1])[:12]))
     # ---------------------------------------------------------------- evaluate
     tot = dict(pending_streams=0, collections=0, checked=0, nodes=0, edges=0, freed=0, forced=0, safepoints=0, dumps=0, opaque_collections=0,
                sym_probes=0, sym_wrapped=0, sym_through_tomb=0, sym_freed=0, sym_last_freed=0, sym_last_freed_chain=0, sym_skipped=0,
